@@ -35,11 +35,26 @@ type VerifyOpts struct {
 	SafetyOnly  bool // ignore functional clauses (sweep mode)
 	ParamInvs   map[string]string // parameter type string -> invariant expression over `$p` (assumed at entry, kept as loop invariant)
 	NoAssume    func(name, kind string) bool // obligations not claimed by the running check: never assumed afterwards
+	CtxPkg      string // H11: verify the function against the contract that THIS package declares for it (its environment model), see GenVC
 }
 
 func (e *Engine) GenVC(fn *ssa.Function, opts VerifyOpts) (res *FuncVC) {
 	res = &FuncVC{Fn: fn, Name: shortFuncName(fn)}
 	e.setCtx(fn)
+	if opts.CtxPkg != "" && opts.CtxPkg != e.ctxPkg {
+		// H11: a second contract for a function in ANOTHER package's contract file is that package's environment model of
+		// the function (assumed while verifying that package). Verifying the function in that package's context proves
+		// the model of the function's body instead of assuming it: every contract lookup (the function's own contract
+		// included) is made as seen from CtxPkg. The next GenVC resets the context (setCtx).
+		if m := e.CtxContracts[fn.String()]; m == nil || m[opts.CtxPkg] == nil {
+			res.ContractErr = "package " + opts.CtxPkg + " declares no contract for " + fn.String()
+			return res
+		}
+		e.ctxPkg = opts.CtxPkg
+		allocMemo = map[*ssa.Function]*allocInfo{}
+		ghostMemo = map[*ssa.Function]*ghostInfo{}
+		allocVisits, ghostVisits = 0, 0
+	}
 	vc := NewVC(e, fn)
 	vc.closures = map[string]*closureInfo{}
 	vc.callCount = map[string]int{}
